@@ -19,6 +19,7 @@ import (
 
 	"github.com/osmosis-labs/osmosis/osmomath"
 	"github.com/osmosis-labs/osmosis/v31/x/gamm/pool-models/balancer"
+	"github.com/osmosis-labs/osmosis/v31/x/gamm/pool-models/stableswap"
 	"github.com/osmosis-labs/osmosis/v31/x/gamm/types"
 	poolmanagertypes "github.com/osmosis-labs/osmosis/v31/x/poolmanager/types"
 )
@@ -125,7 +126,7 @@ func (b c02Bank) GetAllBalances(ctx context.Context, addr sdk.AccAddress) sdk.Co
 
 // pool (de)serialisation is cut at Keeper.MarshalPool / UnmarshalPool (Any packing through the interface registry is
 // reflection): the stubs keep deep copies, so that a stale pool object written back is still visible as such
-var c02Saved []*balancer.Pool
+var c02Saved []types.CFMMPoolI
 
 func c02Clone(p *balancer.Pool) *balancer.Pool {
 	q := *p
@@ -138,12 +139,33 @@ func c02Clone(p *balancer.Pool) *balancer.Pool {
 	return &q
 }
 
-func c02MarshalStub(k Keeper, pool poolmanagertypes.PoolI) ([]byte, error) {
-	p, ok := pool.(*balancer.Pool)
-	if !ok {
-		return nil, errors.New("c02: only balancer pools are modelled")
+func c02CloneStable(p *stableswap.Pool) *stableswap.Pool {
+	q := *p
+	q.TotalShares = sdk.NewCoin(p.TotalShares.Denom, osmomath.NewIntFromBigInt(p.TotalShares.Amount.BigInt()))
+	q.PoolLiquidity = make(sdk.Coins, len(p.PoolLiquidity))
+	for i, c := range p.PoolLiquidity {
+		q.PoolLiquidity[i] = sdk.NewCoin(c.Denom, osmomath.NewIntFromBigInt(c.Amount.BigInt()))
 	}
-	c02Saved = append(c02Saved, c02Clone(p))
+	q.ScalingFactors = append([]uint64{}, p.ScalingFactors...)
+	return &q
+}
+
+func c02CloneAny(pool interface{}) types.CFMMPoolI {
+	switch p := pool.(type) {
+	case *balancer.Pool:
+		return c02Clone(p)
+	case *stableswap.Pool:
+		return c02CloneStable(p)
+	}
+	return nil
+}
+
+func c02MarshalStub(k Keeper, pool poolmanagertypes.PoolI) ([]byte, error) {
+	c := c02CloneAny(pool)
+	if c == nil {
+		return nil, errors.New("c02: only balancer and stableswap pools are modelled")
+	}
+	c02Saved = append(c02Saved, c)
 	return []byte{byte(len(c02Saved))}, nil
 }
 
@@ -151,17 +173,30 @@ func c02UnmarshalStub(k Keeper, bz []byte) (types.CFMMPoolI, error) {
 	if len(bz) != 1 || int(bz[0]) < 1 || int(bz[0]) > len(c02Saved) {
 		return nil, errors.New("c02: unknown pool bytes")
 	}
-	return c02Clone(c02Saved[int(bz[0])-1]), nil
+	return c02CloneAny(c02Saved[int(bz[0])-1]), nil
 }
 
-// osmomath.Pow (series approximation, C13) is cut at its interface: an arbitrary value in [0, 2]. The ledger agreement
-// asserted below does not depend on what the pool's curve returns.
+// the stableswap curve solver (binary search, C13/C04) is cut at its interface: an arbitrary amount with the sign of the
+// input and, when paying out, strictly less than the reserve it is taken from
+var c02CfmmCalls int
+
+func c02SolveCfmmStub(xReserve, yReserve osmomath.BigDec, remReserves []osmomath.BigDec, yIn osmomath.BigDec) osmomath.BigDec {
+	c02CfmmCalls++
+	r := osmomath.NewBigDecFromBigIntWithPrec(vNondetBigRange(fmt.Sprintf("cfmm_result_%d", c02CfmmCalls), osmomath.NewInt(1).BigInt(), osmomath.NewIntWithDecimal(1, 50).BigInt()), 36)
+	if yIn.IsNegative() {
+		return r.Neg()
+	}
+	vAssume(r.LT(xReserve))
+	return r
+}
+
+// osmomath.Pow (series approximation, C13) is cut at its interface: an arbitrary positive value on the same side of one
+// as the base. The ledger agreement asserted below does not depend on what the pool's curve returns.
 var c02PowCalls int
 
 func c02PowStub(base, exp osmomath.Dec) osmomath.Dec {
 	c02PowCalls++
 	r := osmomath.NewDecFromBigIntWithPrec(vNondetBigRange(fmt.Sprintf("pow_result_%d", c02PowCalls), osmomath.NewInt(1).BigInt(), osmomath.NewInt(2000000000000000000).BigInt()), 18)
-	// the part of Pow's contract the callers rely on: positive, and on the same side of one as the base
 	one := osmomath.OneDec()
 	if base.LT(one) {
 		vAssume(r.LT(one))
@@ -174,7 +209,7 @@ func c02PowStub(base, exp osmomath.Dec) osmomath.Dec {
 }
 
 func c02AddrStub(address string) (sdk.AccAddress, error) { return sdk.AccAddress(address), nil }
-func c02AddrString(aa sdk.AccAddress) string              { return string(aa) }
+func c02AddrString(aa sdk.AccAddress) string             { return string(aa) }
 
 type c02World struct {
 	k        *Keeper
@@ -191,7 +226,9 @@ func c02Int(name string, lo, hi int64) osmomath.Int {
 	return osmomath.NewIntFromBigInt(vNondetBigRange(name, osmomath.NewInt(lo).BigInt(), osmomath.NewInt(hi).BigInt()))
 }
 
-func c02Setup(minReserve int64) *c02World {
+func c02Setup(minReserve int64) *c02World { return c02SetupKind(minReserve, 0) }
+
+func c02SetupKind(minReserve int64, kind int) *c02World {
 	if vNative() {
 		sdk.GetConfig().SetBech32PrefixForAccount("osmo", "osmopub")
 	}
@@ -201,8 +238,10 @@ func c02Setup(minReserve int64) *c02World {
 	vOverride("(github.com/osmosis-labs/osmosis/v31/x/gamm/keeper.Keeper).UnmarshalPool", c02UnmarshalStub)
 	vOverride("sort.Slice", vSortSlice)
 	vOverride("github.com/osmosis-labs/osmosis/osmomath.Pow", c02PowStub)
+	vOverride("github.com/osmosis-labs/osmosis/v31/x/gamm/pool-models/stableswap.solveCfmm", c02SolveCfmmStub)
 	c02Saved = nil
 	c02PowCalls = 0
+	c02CfmmCalls = 0
 	w := &c02World{led: &c02Ledger{}}
 	key := storetypes.NewKVStoreKey(types.StoreKey)
 	ms := vNewMS(types.StoreKey)
@@ -212,6 +251,7 @@ func c02Setup(minReserve int64) *c02World {
 		reg := codectypes.NewInterfaceRegistry()
 		types.RegisterInterfaces(reg)
 		balancer.RegisterInterfaces(reg)
+		stableswap.RegisterInterfaces(reg)
 		w.k.cdc = codec.NewProtoCodec(reg)
 	}
 	a, err := sdk.AccAddressFromBech32(vAddrTable[0])
@@ -227,7 +267,7 @@ func c02Setup(minReserve int64) *c02World {
 	resA, resB := c02Int("reserve_a", minReserve, 1000000000000), c02Int("reserve_b", minReserve, 1000000000000)
 	shares := c02Int("total_shares", 1000000, 1000000000000000000)
 	weight := osmomath.NewInt(1 << 30)
-	pool := &balancer.Pool{
+	var pool poolmanagertypes.PoolI = &balancer.Pool{
 		Address: vAddrTable[1], Id: 1,
 		PoolParams:  balancer.PoolParams{SwapFee: osmomath.MustNewDecFromStr("0.003"), ExitFee: osmomath.ZeroDec()},
 		TotalShares: sdk.NewCoin(c02Share, shares),
@@ -236,6 +276,15 @@ func c02Setup(minReserve int64) *c02World {
 			{Token: sdk.NewCoin("ubb", resB), Weight: weight},
 		},
 		TotalWeight: weight.MulRaw(2),
+	}
+	if kind == 1 {
+		pool = &stableswap.Pool{
+			Address: vAddrTable[1], Id: 1,
+			PoolParams:     stableswap.PoolParams{SwapFee: osmomath.MustNewDecFromStr("0.003"), ExitFee: osmomath.ZeroDec()},
+			TotalShares:    sdk.NewCoin(c02Share, shares),
+			PoolLiquidity:  sdk.Coins{sdk.NewCoin("uaa", resA), sdk.NewCoin("ubb", resB)},
+			ScalingFactors: []uint64{1, 1},
+		}
 	}
 	if err := w.k.setPool(w.ctx, pool); err != nil {
 		vAssume(false)
@@ -379,4 +428,74 @@ func VH_C02_exit_swap_share_amount_in() {
 	w.exact("exit-swap")
 	vAssert(w.led.get(string(w.sender), "ubb").Sub(bBefore).Equal(out), "exit-swap:sender-receives-reported-amount")
 	vAssert(w.led.get(string(w.sender), "uaa").Equal(aBefore), "exit-swap:other-token-fully-swapped")
+}
+
+// the same one-step lemmas on a two-asset stableswap pool (curve solver cut at solveCfmm)
+func VH_C02_stableswap_swap_exact_in() {
+	vConfig("lazy_math", 1)
+	w := c02SetupKind(1000000000, 1)
+	in := c02Int("token_in", 1000, 1000000000000)
+	minOut := c02Int("min_out", 1, 1000000000000)
+	pool, err := w.k.GetPoolAndPoke(w.ctx, 1)
+	if err != nil {
+		vAssume(false)
+	}
+	aBefore, bBefore := w.led.get(string(w.sender), "uaa"), w.led.get(string(w.sender), "ubb")
+	out, err := w.k.SwapExactAmountIn(w.ctx, w.sender, pool, sdk.NewCoin("uaa", in), "ubb", minOut, pool.GetSpreadFactor(w.ctx))
+	if err != nil {
+		vReach("reach-refused")
+		return
+	}
+	vReach("reach")
+	w.check("stable-swap-in")
+	w.exact("stable-swap-in")
+	vAssert(aBefore.Sub(w.led.get(string(w.sender), "uaa")).Equal(in), "stable-swap-in:sender-pays-exactly-token-in")
+	vAssert(w.led.get(string(w.sender), "ubb").Sub(bBefore).Equal(out) && out.GTE(minOut), "stable-swap-in:sender-receives-reported-amount-at-least-min")
+}
+
+func VH_C02_stableswap_swap_exact_out() {
+	vConfig("lazy_math", 1)
+	w := c02SetupKind(1000000000, 1)
+	out := c02Int("token_out", 1000, 1000000000000)
+	maxIn := c02Int("max_in", 1, 1000000000000)
+	pool, err := w.k.GetPoolAndPoke(w.ctx, 1)
+	if err != nil {
+		vAssume(false)
+	}
+	aBefore, bBefore := w.led.get(string(w.sender), "uaa"), w.led.get(string(w.sender), "ubb")
+	in, err := w.k.SwapExactAmountOut(w.ctx, w.sender, pool, "uaa", maxIn, sdk.NewCoin("ubb", out), pool.GetSpreadFactor(w.ctx))
+	if err != nil {
+		vReach("reach-refused")
+		return
+	}
+	vReach("reach")
+	w.check("stable-swap-out")
+	w.exact("stable-swap-out")
+	vAssert(aBefore.Sub(w.led.get(string(w.sender), "uaa")).Equal(in) && in.LTE(maxIn), "stable-swap-out:sender-pays-reported-amount-at-most-max")
+	vAssert(w.led.get(string(w.sender), "ubb").Sub(bBefore).Equal(out), "stable-swap-out:sender-receives-exactly-token-out")
+}
+
+func VH_C02_stableswap_join_and_exit() {
+	vConfig("lazy_math", 1)
+	w := c02SetupKind(1000, 1)
+	if vChoose("operation", 2) == 0 {
+		shareOut := c02Int("share_out", 1, 1000000000000000000)
+		_, _, err := w.k.JoinPoolNoSwap(w.ctx, w.sender, 1, shareOut, sdk.Coins{})
+		if err != nil {
+			vReach("reach-join-refused")
+			return
+		}
+		vReach("reach-join")
+		w.check("stable-join")
+		return
+	}
+	shareIn := c02Int("share_in", 1, 1000000000000000000)
+	_, err := w.k.ExitPool(w.ctx, w.sender, 1, shareIn, sdk.Coins{})
+	if err != nil {
+		vReach("reach-exit-refused")
+		return
+	}
+	vReach("reach-exit")
+	w.check("stable-exit")
+	w.exact("stable-exit")
 }
